@@ -155,7 +155,7 @@ def scenario(ch, cfg):
         cl(f"f::.cli({PORT})")
         for i in range(nops):
             last = i == nops - 1
-            k = ch.weighted([6, 4, 4, 4, 2, 2, 2, 2, 2, 1 if last else 0], "op")
+            k = ch.weighted([6, 4, 4, 4, 2, 2, 2, 2, 2, 1 if last else 0, 2], "op")
             if k == 0:      # f("expr")
                 m = ch.weighted([5, 2, 2, 1, 1, 1], "expr")
                 if m == 0:
@@ -287,8 +287,24 @@ def scenario(ch, cfg):
                         if isinstance(e, SystemExit):
                             raise
                         res[j] = ("exc", type(e).__name__)
-                acts = [w.spawn(f"burst{i}.{j}", lambda j=j, lit=lit: one(j, lit)) for j, lit in enumerate(lits)]
+                acts = []
+                if ch.draw(4, "badreq") == 0:
+                    # one more caller in the burst whose request cannot be encoded: it alone fails, the others get their answers
+                    stats["probe_unencodable_request_in_burst"] += 1
+
+                    def bad():
+                        try:
+                            nc.call(ipc.KGRemoteFnCall(KGSym("useg"), [lambda: 0]))
+                            res["bad"] = "returned"
+                        except BaseException as e:   # noqa
+                            if isinstance(e, SystemExit):
+                                raise
+                            res["bad"] = "raised"
+                    acts.append(w.spawn(f"burst{i}.bad", bad))
+                acts += [w.spawn(f"burst{i}.{j}", lambda j=j, lit=lit: one(j, lit)) for j, lit in enumerate(lits)]
                 w.block_until(lambda: all(a.done for a in acts), "burst.join")
+                if res.get("bad") == "returned":
+                    viol("C13:unencodable-request-returned", "a call whose argument cannot be pickled returned a value")
                 for j, lit in enumerate(lits):
                     want = ("ok", canon(twin(lit)))
                     if res.get(j) != want:
@@ -327,6 +343,37 @@ def scenario(ch, cfg):
                 args = [str(2 + ch.draw(20, "ran")) for _ in range(new_ar)]
                 both("proxy-call", f"{q}({';'.join(args)})", lambda name=name, args=args: twin(f"{name}({';'.join(args)})"))
                 state["proxies"].pop(name, None)
+            elif k == 10:   # the same expression text before and after remote sets that change the kind of its variables
+                if not state["dict"]:
+                    cl("d::.clid(f)")
+                    state["dict"] = True
+                stats["probe_same_text_after_remote_set"] += 1
+                expr = ch.pick(["sa=sb", "sa+sb", "sa*2", "sa,sb", "#sa", "sa<sb"], "stext")
+                phases = [("3", "4"), (ch.pick([":foo", "[1 2 3]", '"ab"', "7", "[0cx]"], "s2a"), ch.pick(["[1 2 3]", ":foo", '"cd"', "7.5"], "s2b"))]
+                if ch.draw(2, "s3"):
+                    phases.append(("10", "20"))
+                for pa, pb in phases:
+                    for nm, lit in (("sa", pa), ("sb", pb)):
+                        # atoms are joined as they are (d,:k,3 keeps a plain integer; d,:k,,3 would send numpy's)
+                        setsrc = f"d,:{nm},,{lit}" if lit[0] in '["' else f"d,:{nm},{lit}"
+                        # (the value the client's list building produces; :zzk is bound nowhere, as :sa is on the client)
+                        val = twin(f":zzk,,{lit}" if lit[0] in '["' else f":zzk,{lit}")[1]
+                        try:
+                            cl(setsrc)
+                            twin[nm] = val
+                            log.append(setsrc)
+                        except BaseException as e:   # noqa
+                            if isinstance(e, SystemExit):
+                                raise
+                            viol(f"C13:dict-set-raised:{type(e).__name__}", f"d,:{nm},,{lit}: {str(e)[:80]}")
+                    if violations:
+                        break
+                    both("eval-after-dict-set", f'f("{expr}")', lambda expr=expr: twin(expr))
+                    if violations or state.get("client_exc"):
+                        break
+                for nm in ("sa", "sb"):
+                    if nm not in state["vars"]:
+                        state["vars"].append(nm)
             else:           # failing expression (only as the last operation)
                 expr = ch.pick(["1+", "nosuchfn(1)", "[1 2 3]@99"], "bad")
                 stats["probe_server_error_last"] += 1
